@@ -113,6 +113,14 @@ def extract_fmt_impls(crate, path, src):
                     "reads_self": reads_self, "literals": lits,
                     "uses_stringify": "stringify!" in fbody, "uses_type_name": "type_name" in fbody,
                     "unsigned_args": re.findall(r"<\s*(\w+)\s+as\s+Unsigned\s*>", fbody)})
+    # `#[derive(.. Debug ..)]` on a struct/union/enum prints its fields: it reads `self`
+    for m in re.finditer(r"#\[derive\(([^)]*)\)\]\s*(?:#\[[^\]]*\]\s*)*(?:pub(?:\([a-z]+\))?\s+)?(struct|union|enum)\s+(\$?\w+)", src):
+        if re.search(r"\bDebug\b", m.group(1)):
+            name = m.group(3)
+            if name in ("InvalidLengthError",):
+                continue  # error marker types carry no key material
+            res.append({"crate": crate, "file": os.path.relpath(path, REPO), "kind": "Debug", "type": name,
+                        "reads_self": True, "literals": [], "uses_stringify": False, "uses_type_name": False, "unsigned_args": []})
     return res
 
 
@@ -261,6 +269,27 @@ def extract_drops(crate, path, src):
         res.append({"crate": crate, "file": os.path.relpath(path, REPO), "type": ty, "wiped": sorted(wiped), "whole": whole,
                     "delegates": sorted(f"{a}.{b}" for a, b in deleg), "cfg_zeroize": gated,
                     "cfgs": [re.sub(r"\s+", " ", c) for c in cfgs]})
+    return res
+
+
+# ---------------------------------------------------------------------------------------------
+# union arm discipline (C12): every `if <x>.token.get() { A } else { B }` (and `aesni_present`) of the autodetect
+# wrappers may touch only `.intrinsics` in A and only `.soft` in B
+def extract_token_branches(crate, path, src):
+    res = []
+    for m in re.finditer(r"\bif\s+((?:\w+\s*\.\s*)*token\s*\.\s*get\s*\(\s*\)|aesni_present)\s*\{", src):
+        a_end = block_at(src, m.end() - 1)
+        a = src[m.end():a_end - 1]
+        em = re.match(r"\s*else\s*\{", src[a_end:])
+        if not em:
+            res.append((crate, os.path.relpath(path, REPO), ["?"], ["?"]))
+            continue
+        b_start = a_end + em.end()
+        b_end = block_at(src, b_start - 1)
+        bb = src[b_start:b_end - 1]
+        arms = lambda t: sorted(set(re.findall(r"\b(intrinsics|soft)\s*(?=[:.])|\.\s*(intrinsics|soft)\b", t) and
+                                      [x for tup in re.findall(r"\b(intrinsics|soft)\s*[:.]|\.\s*(intrinsics|soft)\b", t) for x in tup if x]))
+        res.append((crate, os.path.relpath(path, REPO), arms(a), arms(bb)))
     return res
 
 
@@ -429,7 +458,7 @@ def write_if_changed(path, content):
 
 
 def main():
-    fmts, guards, structs, drops, tables, sites, scalars, keyinits, muts = [], [], [], [], [], [], [], [], []
+    fmts, guards, structs, drops, tables, sites, scalars, keyinits, muts, tokbr = [], [], [], [], [], [], [], [], [], []
     for crate in CRATES:
         for path in rs_files(crate):
             try:
@@ -449,6 +478,8 @@ def main():
             drops += extract_drops(crate, path, src)
             keyinits += extract_keyinits(crate, path, src)
             muts += extract_mut(crate, path, src)
+            if path.endswith("autodetect.rs"):
+                tokbr += extract_token_branches(crate, path, src)
             tables += extract_tables(crate, path, src)
             tables += extract_alias_tables(crate, path, src)
             scalars += extract_scalars(crate, path, src)
@@ -501,6 +532,10 @@ def main():
             um.append(x)
     L.append("def sharedMut : List (String × String × String) := [" + ", ".join(
         f"({lean_str(a)}, {lean_str(b_)}, {lean_str(c)})" for a, b_, c in um) + "]")
+    L.append("")
+    L.append("/-- autodetect wrappers: for every `if token.get() {A} else {B}`: (crate, file, union arms named in A, in B) -/")
+    L.append("def tokenBranches : List (String × String × List String × List String) := [" + ", ".join(
+        f"({lean_str(a)}, {lean_str(b_)}, {sl(c)}, {sl(d)})" for a, b_, c, d in tokbr) + "]")
     L.append("")
     L.append("/-- every `impl KeyInit for T`: (crate, file, base type name) -/")
     L.append("def keyInits : List (String × String × String) := [" + ", ".join(
